@@ -16,6 +16,7 @@ struct GRcpt {
   int k_reports = 0, d_reports = 0;
   bool k_done = false;       // marked after a K report
   bool noted = false;        // note appended to bounce/n (not yet in a sent bounce)
+  bool named = false;        // the bounce message just queued for this message carries this recipient's paragraph
   bool bounced = false;      // note was in a bounce whose injection exited 0 (or documented discard)
   bool exempt = false;       // lossy-crash exemption (bounce record not crashproof)
   bool cmd_after_mark = false;
